@@ -303,7 +303,9 @@ class ExecutionState:
         }
     )
 
-    def _is_inside_completed_context(self, op: Operation) -> bool:
+    def _is_inside_completed_context(
+        self, op: Operation, operations: MutableMapping[str, Operation]
+    ) -> bool:
         """True if an ancestor context of op has completed without asking for its children to be replayed.
 
         Such a context returns its recorded outcome without running its body again, so the
@@ -313,7 +315,7 @@ class ExecutionState:
         seen: set[str] = set()
         while parent_id and parent_id not in seen:
             seen.add(parent_id)
-            parent = self.operations.get(parent_id)
+            parent = operations.get(parent_id)
             if parent is None:
                 return False
             if (
@@ -327,12 +329,16 @@ class ExecutionState:
 
     def _completed_operation_ids(self) -> set[str]:
         """Ids of the completed operations (other than EXECUTION) that a replay will visit."""
+        # The background thread merges checkpoint responses into self.operations concurrently:
+        # iterate over a snapshot taken under the lock, never over the live dict.
+        with self._operations_lock:
+            operations = dict(self.operations)
         return {
             op_id
-            for op_id, op in self.operations.items()
+            for op_id, op in operations.items()
             if op.operation_type != OperationType.EXECUTION
             and op.status in self._TERMINAL_STATUSES
-            and not self._is_inside_completed_context(op)
+            and not self._is_inside_completed_context(op, operations)
         }
 
     def start_replay_if_history_has_completed_operations(self) -> None:
